@@ -5,7 +5,7 @@ time.gmtime / calendar.timegm / datetime.strptime, Server.build_list_mtime, _for
 build_mlsx_string, build_list_string, Client.parse_ls_date, parse_list_line_unix, parse_unix_mode,
 parse_mlsx_line — and the property oracle (the right-hand sides of the Props/C07.v theorems,
 recomputed independently with datetime arithmetic) evaluated on the implementation's outputs,
-function level and over real loopback sessions."""
+function level and over simnet sessions (real Server + Client)."""
 import asyncio
 import calendar
 import datetime
@@ -27,13 +27,16 @@ TECHNIQUE = (
     "malformed streams and loopback sessions; constants regenerated from common.py"
 )
 LEVEL_TEXT = (
-    "Theorems C07_mlsx_roundtrip, C07_mlsd_entries_exact, C07_list_roundtrip, C07_ls_date_recent, C07_ls_date_old_or_future, "
+    "Theorems C07_mlsx_roundtrip, C07_mlsd_entries_exact, C07_mlst_roundtrip (through the C06 reply framing), C07_list_roundtrip, "
+    "C07_client_list_exact (the Client.list loop and parser chain over an arbitrary directory), C07_list_agrees_with_mlsd, "
+    "C07_stat_via_list_exact, C07_ls_date_recent, C07_ls_date_old_or_future, "
     "C07_ls_date_window_witness and the calendar round trips are proved for all Z timestamps (4-digit years), all sizes, all "
     "names the line format can carry, every fixed-offset zone and every client clock within one hour after the server's "
     "(Closed under the global context). The models are hand-written; their tie to the code is a differential correspondence "
     "(about 2*10^5 cases per quick run, every boundary of half-year/New Year/Feb 28-29-Mar 1 in leap, non-leap and century years "
-    "+-{0,1,59,60,86400} s, TZ=UTC and two fixed-offset zones in subprocesses, malformed streams) plus loopback sessions "
-    "against MemoryPathIO and PathIO."
+    "+-{0,1,59,60,86400} s, TZ=UTC and two fixed-offset zones in subprocesses, malformed streams), the real Client.list/Client.stat "
+    "glue on stubbed streams, plus simnet sessions (real Server and Client) against MemoryPathIO, PathIO and AsyncPathIO with "
+    "os.utime-controlled mtimes, MLSD, LIST, the 502 fallback and stat()."
 )
 LEVEL_NOTE = (
     "Trusted: Coq kernel; extraction cross-checked with vm_compute; harness. Modelled, not verified: glibc strftime (%b %e %H %M %Y "
